@@ -111,7 +111,11 @@ class PieceLengthValueError(Exception):
 
         The `message` argument is a message to pass to Exception base class.
         """
-        self.message = f"Incorrect value for piece length: {str(message)}"
+        try:
+            message = str(message)
+        except ValueError:  # an int with more digits than str() converts
+            message = "integer too large to display"
+        self.message = f"Incorrect value for piece length: {message}"
         super().__init__(message)
 
 
